@@ -209,7 +209,97 @@ def bounded_runtime(tier, seed):
             "bound": "1 document x 3 listing orders of its responses; 4 calls each", "evaluations": n, "distinct_nontrivial": n, "exhaustive": False, "failures": failures}
 
 
-BOUNDED = [bounded_case_arms, bounded_runtime]
+def bounded_runtime_kinds(tier, seed):
+    """response kinds through a real generated client: discriminated unions whose variants overlap (every payload must come back as ITS variant with all
+    its keys), arrays / maps of models, enums, primitives (falsy values included), nested optional structures"""
+    from props import corpus as C, gen_harness as G
+    P = C.PRIMS
+    R = C.ref
+    schemas = dict(C.BASE_SCHEMAS,
+                   Cat=C.obj({"petType": P["str"], "name": P["str"], "lives": P["int"]}, ["petType", "name"]),
+                   Dog=C.obj({"petType": P["str"], "name": P["str"], "packSize": P["int"], "bark": P["bool"]}, ["petType", "name"]),
+                   Bird=C.obj({"petType": P["str"], "name": P["str"], "wingspan": P["int"]}, ["petType", "name"]),
+                   Animal={"oneOf": [R("Cat"), R("Dog"), R("Bird")], "discriminator": {"propertyName": "petType", "mapping": {
+                       "cat": "#/components/schemas/Cat", "dog": "#/components/schemas/Dog", "bird": "#/components/schemas/Bird"}}},
+                   Color={"type": "string", "enum": ["red", "dark-green", ""]},
+                   Zoo=C.obj({"star": R("Animal"), "all": {"type": "array", "items": R("Animal")}, "byName": {"type": "object", "additionalProperties": R("Animal")}, "tint": R("Color")}, ["star"]))
+    ops = [C.op("/animal", "get", "getAnimal", ["k"], responses={"200": C.resp_json(R("Animal")), "203": C.resp_json(R("Animal"))}),
+           C.op("/animals", "get", "listAnimals", ["k"], responses={"200": C.resp_json({"type": "array", "items": R("Animal")})}),
+           C.op("/zoo", "get", "getZoo", ["k"], responses={"200": C.resp_json(R("Zoo"))}),
+           C.op("/pets", "get", "mapPets", ["k"], responses={"200": C.resp_json({"type": "object", "additionalProperties": R("Pet")})}),
+           C.op("/color", "get", "getColor", ["k"], responses={"200": C.resp_json(R("Color"))}),
+           C.op("/count", "get", "getCount", ["k"], responses={"200": C.resp_json(P["int"])}),
+           C.op("/flag", "get", "getFlag", ["k"], responses={"200": C.resp_json(P["bool"])}),
+           C.op("/text", "get", "getText", ["k"], responses={"200": C.resp_json(P["str"])})]
+    d = C.doc("RK", ops, schemas)
+    cat = {"petType": "cat", "name": "Tom", "lives": 9}
+    dog = {"petType": "dog", "name": "Rex", "packSize": 3, "bark": False}
+    bird = {"petType": "bird", "name": "Io", "wingspan": 0}
+    pet = {"id": 7, "name": "Tom", "tag-name": "t", "born": "2020-01-02"}
+    cases = [("get_animal", 200, cat, "Cat"), ("get_animal", 200, dog, "Dog"), ("get_animal", 200, bird, "Bird"), ("get_animal", 203, dog, "Dog"),
+             ("list_animals", 200, [bird, dog, cat], None), ("get_zoo", 200, {"star": dog, "all": [cat, bird], "byName": {"x": bird, "y": dog}, "tint": ""}, "Zoo"),
+             ("map_pets", 200, {"a": pet}, None), ("get_color", 200, "dark-green", None), ("get_color", 200, "", None), ("get_count", 200, 0, None),
+             ("get_flag", 200, False, None), ("get_text", 200, "", None)]
+    failures, n = [], 0
+    root = G.scratch("c05k")
+    try:
+        err = G.generate(d, root, "rk")
+        if err is not None:
+            return {"function": "response kinds at run time", "backend": "bounded", "bound": "generation failed", "evaluations": 0, "distinct_nontrivial": 0, "exhaustive": False,
+                    "failures": [{"id": "bounded:runtime-kinds:generation", "detail": f"{type(err).__name__}: {err}"[:300], "input": {}}]}
+        code = textwrap.dedent('''
+            import asyncio, json, httpx
+            from rk.client import APIClient
+            from rk.core.config import ClientConfig
+            from rk.core.http_transport import HttpxTransport
+            from rk.core.utils import DataclassSerializer
+            cases = json.loads(%r)
+            state = {}
+            def handler(req):
+                return httpx.Response(state["status"], json=state["body"])
+            def norm(x):
+                if isinstance(x, dict):
+                    return {k: norm(v) for k, v in x.items() if v is not None}
+                if isinstance(x, list):
+                    return [norm(v) for v in x]
+                return x
+            async def main():
+                t = HttpxTransport("https://x.invalid")
+                t._client = httpx.AsyncClient(base_url="https://x.invalid", transport=httpx.MockTransport(handler))
+                c = APIClient(ClientConfig(base_url="https://x.invalid"), transport=t)
+                bad = []
+                for meth, sc, body, cls in cases:
+                    state.update(status=sc, body=body)
+                    try:
+                        r = await getattr(c.k, meth)()
+                        back = json.loads(json.dumps(DataclassSerializer.serialize(r)))
+                        if cls is not None and type(r).__name__ != cls:
+                            bad.append((meth, sc, body, "returned " + type(r).__name__ + ", expected " + cls))
+                        elif norm(back) != norm(body):
+                            bad.append((meth, sc, body, "re-serialised as " + json.dumps(back)))
+                    except Exception as e:
+                        bad.append((meth, sc, body, type(e).__name__ + ": " + str(e)[:120]))
+                print("RESULT " + json.dumps(bad))
+            asyncio.run(main())
+        ''') % json.dumps(cases)
+        ok, out = G.import_modules(root, ["rk.client"], extra_code=code)
+        n = len(cases)
+        line = next((l for l in out.splitlines() if l.startswith("RESULT ")), None)
+        if not ok or line is None:
+            failures.append({"id": "bounded:runtime-kinds:harness", "detail": out[-500:], "input": {}})
+        else:
+            for meth, sc, body, why in json.loads(line[7:]):
+                kind = "union" if "animal" in meth or "zoo" in meth else "scalar-or-container"
+                failures.append({"id": f"bounded:runtime-kinds:{meth}:{kind}:{(body.get('petType') if isinstance(body, dict) else type(body).__name__)}",
+                                 "detail": f"{meth} answering {sc} with {json.dumps(body)[:160]}: {why}"[:500], "input": {"method": meth, "status": sc, "body": body}})
+    finally:
+        shutil.rmtree(root, ignore_errors=True)
+    return {"function": "generated client through httpx.MockTransport: discriminated unions with overlapping variants (primary and secondary 2xx, nested in arrays / maps / "
+                        "objects), maps and arrays of models, enums, falsy primitives — returned variant and re-serialisation", "backend": "bounded",
+            "bound": f"1 document, {len(cases)} (operation, status, body) cases", "evaluations": n, "distinct_nontrivial": n, "exhaustive": False, "failures": failures}
+
+
+BOUNDED = [bounded_case_arms, bounded_runtime, bounded_runtime_kinds]
 WITNESS = {"F-C05-text-plain-as-json": lambda k: any(":text-as-json" in f["id"] for f in bounded_case_arms("quick", 0)["failures"])}
 
 MANIFEST = {
